@@ -12,16 +12,16 @@ import (
 )
 
 type LemmaResult struct {
-	Lemma     *LemmaDef
-	Ob        *Obligation
-	Witness   string // counterexample string (if refuted)
-	HasWit    bool
-	StatesA   int
-	StatesB   int
-	Product   int
-	Classes   int
-	Patterns  []string
-	Err       string
+	Lemma    *LemmaDef
+	Ob       *Obligation
+	Witness  string // counterexample string (if refuted)
+	HasWit   bool
+	StatesA  int
+	StatesB  int
+	Product  int
+	Classes  int
+	Patterns []string
+	Err      string
 }
 
 func (p *Prog) lemmaEnv(exprs []ast.Expr) (*langEnv, error) {
